@@ -120,6 +120,12 @@ def apply (d : Disk) : Step → Disk
   | .openInPlace n t => { d with wt := setKey d.wt (.file n) ⟨t, false⟩ }
   | .writeInPlace n t => { d with wt := setKey d.wt (.file n) ⟨t, true⟩ }
 
+/-- does the step touch the disk?  dulwich does not rewrite a loose object that is there already
+    (the model keeps the step, it is a no-op) -/
+def effective (d : Disk) : Step → Bool
+  | .addObj o => !d.objs.contains o
+  | _ => true
+
 def run (d : Disk) (steps : List Step) : Disk := steps.foldl apply d
 
 /-- the process dies after `k` micro-steps -/
@@ -199,7 +205,9 @@ def headTree (d : Disk) : List (String × String) :=
 /-- `BareGitStore._import_one(name, data)` -/
 def barePut (d : Disk) (n tok : String) : List Step :=
   let t := headTree d
-  if t.lookup n = some tok then []     -- nothing new to write, tree id unchanged: no commit
+  if t.lookup n = some tok then
+    -- tree id unchanged: `add_objects` still writes its pack, but there is no commit
+    [.addPack [.tree t, .blob tok], .addPackIdx]
   else
     let t' := setKey t n tok
     let c := mkCommit t' d.head
